@@ -161,8 +161,9 @@ ViolatedCommit(pol, s, ch, side, n, r) ==
   \cup (IF und THEN {"underflow"} ELSE {})
      \* every fee rate that explains the implied fee is below the minimum
   \cup (IF ~ovf /\ ~und /\ Lt(RateHi(fee, w), pol.min_fr) THEN {"fee_low"} ELSE {})
-     \* even without the anchors every such rate is above the maximum
-  \cup (IF ~ovf /\ ~und /\ Gt(RateLo(Monus(fee, AnchorSum(s.ctype, r)), w), pol.max_fr)
+     \* even without the anchors every such rate is above the maximum (a maximum of u32::MAX,
+     \* the largest value the policy field can hold, means "no upper bound")
+  \cup (IF ~ovf /\ ~und /\ pol.max_fr # U32MAX /\ Gt(RateLo(Monus(fee, AnchorSum(s.ctype, r)), w), pol.max_fr)
           THEN {"fee_high"} ELSE {})
   \cup (IF n = 0 /\ k > 0 THEN {"first_htlcs"} ELSE {})
   \cup (IF n = 0 /\ s.outbound /\ Gt(cpv, Div(s.push_msat, 1000)) THEN {"first_value"} ELSE {})
